@@ -46,6 +46,7 @@ func c11MakeBase(rt *rapid.T, fail func([]drv.Op, *drv.Violation)) *c11Base {
 	cfg.PageSizes = []int{1024, 1024, 4096, 4096, 16384, 65536}
 	cfg.CommitWeight = 30
 	f := func(v *drv.Violation) {
+		drv.SetFailing()
 		log := e.Log
 		e.Cleanup()
 		fail(log, v)
